@@ -57,6 +57,12 @@ def generate(rng, tier):
         weighted = rng.random() < 0.35
         red = "average" if weighted else rng.choice(list(REDS))
         weights = [B.pos_weights(rng, npts) for _ in range(ncomp)] if weighted else None
+        if weighted and rng.random() < 0.3:
+            # discarded readings: weight exactly zero (in every component) at the extreme points of the cloud - they still belong to their blocks
+            es_, ns_ = coords[0], coords[1]
+            for j in {es_.index(min(es_)), es_.index(max(es_)), ns_.index(max(ns_))}:
+                for wc in weights:
+                    wc[j] = 0.0
         shape2d = [npts]
         if npts % 2 == 0 and rng.random() < 0.3:
             shape2d = [npts // 2, 2]
@@ -124,9 +130,14 @@ def _reduce(red, vals, ws=None):
 
 def oracle(case, io):
     coords, shape2d, data, weights, region, shape, spacing, adjust, red, centre, drop = case["args"]
+    es, ns = coords[0], coords[1]
+    if C.is_err(io) and io[1] == "ZeroDivisionError" and weights is not None:
+        # a weighted average over a block whose weights are all zero is undefined: the error is the right answer exactly then
+        _, labels0 = vd.block_split((np.array(es), np.array(ns)), spacing=spacing, shape=shape, adjust=adjust, region=region)
+        if any(sum(wc[i] for i in members) == 0 for members in B.groups(labels0).values() for wc in weights):
+            return None
     if C.is_err(io):
         return "valid arguments rejected: " + io[1]
-    es, ns = coords[0], coords[1]
     if B.near_tie(es, ns, region, shape, spacing, adjust):
         return None
     (be, bn), labels = vd.block_split((np.array(es), np.array(ns)), spacing=spacing, shape=shape, adjust=adjust, region=region)
